@@ -37,6 +37,14 @@ CHECKS = {
         "with contiguous, disjoint, in-range groups. (b) Real abelian and fermionic arrays (axis sizes 1-3, size-one axes with zero and non-zero charge, a pre-fused variant, sparsity patterns) "
         "are reshaped to every such target and back: rank, no axis larger than requested, same multiset of non-zero magnitudes, charge, exact restoration of blocks and index tables, identity on the current shape.",
    note="Trusted: numpy; tags make content comparison exact. Known finding: all-size-one array -> () raises IndexError (listed in known_findings.json)."),
+ "C08": dict(engine="E-enum", design_ref="DESIGN.md 5 C08",
+   technique="exhaustive enumeration of abelian arrays / block vectors x operation x argument menu x entry point on the real code; reference = numpy on the harness's dense embedding, exact",
+   text="Every abelian array of the bounded universe (n<=3, all directions, charges, sparsity patterns, real and complex) is run through every operation of the statement "
+        "(every permutation, conj, dagger/H/T, squeeze, expand_dims with every position / charge / direction option, scalar and array arithmetic with a second operand of independent "
+        "sparsity, multiply_diagonal on every axis with each vector charge missing, sum, norm, abs, sqrt) via the method, the symmray function and autoray.do; block vectors over every "
+        "charge subset through all arithmetic (reflected and power forms) and every exported elementwise function. The dense form of each result must equal the numpy operation on the "
+        "dense operands exactly; a raise is a tallied refusal; the three entry points must agree in outcome.",
+   note="Trusted: numpy ufuncs; harness embedding. norm uses rel. tolerance 1e-12. log/log2/log10 raise (RecursionError) on every entry point: tallied as refusals, consistent across entry points."),
 }
 
 _ALL = ["C%02d" % i for i in range(1, 21)]
